@@ -12,6 +12,9 @@ def _safe(f):
         return "!" + type(exc).__name__
 
 
+TUPLE_KIND = [False]   # the class under test is a tuple: its plain twin must be asked the same (restricted) questions
+
+
 def qvec(nodes, labels, lab, exporters=True):
     """Everything a user can ask about the forest, expressed in labels only (never ==/hash/bool on nodes)."""
     import anytree
@@ -42,7 +45,10 @@ def qvec(nodes, labels, lab, exporters=True):
                                      _safe(lambda: seq(anytree.findall(nd, mincount=2)))))
         v["render"] = _safe(lambda: ([(r.pre, r.fill, lab(r.node)) for r in anytree.RenderTree(nd, style=anytree.AsciiStyle())],
                                      anytree.RenderTree(nd).by_attr("name"),
-                                     anytree.RenderTree(nd).by_attr(lambda n: n), anytree.RenderTree(nd).by_attr("parent"),
+                                     # (an attribute VALUE that is a tuple is rendered as several lines by definition: nodes
+                                     #  that are tuples are therefore not used as by_attr values)
+                                     anytree.RenderTree(nd).by_attr((lambda n: lab(n)) if isinstance(nd, tuple) or TUPLE_KIND[0] else (lambda n: n)),
+                                     anytree.RenderTree(nd).by_attr("name" if isinstance(nd, tuple) or TUPLE_KIND[0] else "parent"),
                                      str(anytree.RenderTree(nd, maxlevel=2)),
                                      [(r.pre, lab(r.node)) for r in anytree.RenderTree(nd, childiter=reversed, maxlevel=2)]))
         paths = ["", ".", "..", "a", "b", "c", "d", "a/b", "../a", "/a", "/b/c", "/" + l, "../..", "x"]
@@ -93,6 +99,7 @@ def make_judge(pid):
         kind2 = extra["kind2"]
         check_traps = extra.get("traps", False)
         exporters = extra.get("exporters", False)
+        TUPLE_KIND[0] = ex.kind.startswith("trap:tuple")
         why = None
         if check_traps and traps.TRAPLOG:
             why = "library invoked %s on a node during the structural call" % sorted(set(traps.TRAPLOG))
@@ -155,6 +162,7 @@ def state_queries(kind, kind2, n, states, pid, traps_on, exporters):
 
 
 def _state_query_one(t, kind, kind2, n, key, state, witness, pid, traps_on, exporters):
+    TUPLE_KIND[0] = kind.startswith("trap:tuple")
     if True:
         u1 = forest.rebuild(kind, n, witness)
         u1.arm()
@@ -193,6 +201,8 @@ def shape_queries(kind, kind2, shapes, pid, traps_on, exporters):
 
 def _shape_query_one(t, kind, kind2, shape, pid, traps_on, exporters):
     from . import tree
+
+    TUPLE_KIND[0] = kind.startswith("trap:tuple")
 
     cls = forest.classes()
     if True:
